@@ -48,9 +48,9 @@ class BirthDeathModel(CallableModel):
         )
 
     def _call(self):
-        lambda_ = self.R.tensor * self.delta.tensor
-        mu = self.delta.tensor - self.s.tensor * self.delta.tensor
-        psi = self.s.tensor * self.delta.tensor
+        lambda_ = self.lambda_.tensor
+        mu = self.mu.tensor
+        psi = self.psi.tensor
         if self.rho.shape[-1] != lambda_.shape[-1]:
             rho = torch.cat(
                 (
